@@ -42,6 +42,15 @@ type InnerB struct {
 
 type IDs []int
 
+type MyInts []MyInt
+
+// Label is a defined string type; LStatus.String returns it, so LStatus is NOT a fmt.Stringer.
+type Label string
+
+type LStatus int
+
+func (s LStatus) String() Label { return "lstatus" }
+
 type Namer interface{ Name() string }
 
 type E1 struct{}
@@ -81,6 +90,10 @@ var Types = []FieldType{
 	{"ssextItem", "[][]ext.Item", "slice", false, true},
 	{"sextItem", "[]ext.Item", "slice", false, true},
 	{"IDs", "IDs", "named-slice", false, false},
+	{"MyInts", "MyInts", "named-slice", false, false},
+	{"serror", "[]error", "slice", false, false},
+	{"LStatus", "LStatus", "named", false, false},
+	{"extInner3", "ext.Inner3", "struct", false, true},
 	{"mapsi", "map[string]int", "map", false, false},
 	{"mapsMyInt", "map[string]MyInt", "map", false, false},
 	{"iface", "interface{}", "iface", true, false},
